@@ -199,12 +199,23 @@ def limits(rep, F, tag):
                       'testing max_iter (valuation %s)' % {k: v for k, v in val.items()}, f.loc())
                 continue
             k = mi[0]
-            okshape = k.startswith('eq(arg3.max_iter, self.iterations)') or k.startswith(
-                'le(arg3.max_iter, self.iterations)')
-            R.check(okshape, 'max_iter-shape|%s%s' % (k.split('@')[0], tag),
+            # orientation-free reading of the two limit tests: hit = "iterations has reached max_iter", over = "solve_time is beyond time_limit"
+            def reading(key, v, small, big, strict_ok):
+                """key compares small with big; returns 1/0 for `big has reached small` or None for an unusable shape"""
+                kk = re.sub(r'#\d+$', '', key.split('@')[0])
+                forms = {'eq(%s, %s)' % (small, big): v, 'eq(%s, %s)' % (big, small): v, 'ne(%s, %s)' % (small, big): 1 - v, 'ne(%s, %s)' % (big, small): 1 - v,
+                         'le(%s, %s)' % (small, big): v, 'ge(%s, %s)' % (big, small): v, 'lt(%s, %s)' % (big, small): 1 - v, 'gt(%s, %s)' % (small, big): 1 - v}
+                if strict_ok:
+                    forms = {'lt(%s, %s)' % (small, big): v, 'gt(%s, %s)' % (big, small): v, 'le(%s, %s)' % (big, small): 1 - v, 'ge(%s, %s)' % (small, big): 1 - v,
+                             'le(%s, %s)' % (small, big): v, 'ge(%s, %s)' % (big, small): v, 'lt(%s, %s)' % (big, small): 1 - v, 'gt(%s, %s)' % (small, big): 1 - v}
+                return forms.get(kk)
+            hit = reading(k, val[k], 'arg3.max_iter', 'self.iterations', False)
+            R.check(hit is not None, 'max_iter-shape|%s%s' % (k.split('@')[0], tag),
                     'the iteration limit is tested with %s, which is not true exactly when iterations reaches '
-                    'max_iter (accepted: ==, >=)' % k, f.loc())
-            if val[k] == 1:
+                    'max_iter (accepted: ==, >=, in either orientation)' % k, f.loc())
+            if hit is None:
+                continue
+            if hit == 1:
                 nmi += 1
                 R.check(last_store == 'SolverStatus::MaxIterations', 'max_iter-store%s' % tag,
                         'max_iter reached but the stored status is %s' % last_store, f.loc())
@@ -214,10 +225,12 @@ def limits(rep, F, tag):
                           f.loc())
                     continue
                 t = tl[0]
-                R.check(t.startswith('lt(arg3.time_limit, self.solve_time)') or t.startswith(
-                    'le(arg3.time_limit, self.solve_time)'), 'time-shape|%s%s' % (t.split('@')[0], tag),
-                    'the time limit is tested with %s (expected solve_time > time_limit)' % t, f.loc())
-                if val[t] == 1:
+                over = reading(t, val[t], 'arg3.time_limit', 'self.solve_time', True)
+                R.check(over is not None, 'time-shape|%s%s' % (t.split('@')[0], tag),
+                        'the time limit is tested with %s (expected solve_time > time_limit)' % t, f.loc())
+                if over is None:
+                    continue
+                if over == 1:
                     nmt += 1
                     R.check(last_store == 'SolverStatus::MaxTime', 'time-store' + tag,
                             'time limit exceeded but the stored status is %s' % last_store, f.loc())
@@ -226,7 +239,17 @@ def limits(rep, F, tag):
                             'no limit reached but status %s stored' % last_store, f.loc())
             # return value
         for val, ret, ev, tr in leaves:
-            R.check(ret[0] == 's' and ret[1].startswith('ne(%s, self.status)' % UNS), 'returns-ne-unsolved' + tag,
+            if ret[0] == 's' and (ret[1].startswith('ne(%s, self.status)' % UNS) or ret[1].startswith('ne(self.status, %s)' % UNS)):
+                continue
+            # a constant answer (e.g. from `!matches!(self.status, Unsolved)`) is right if it agrees with what the path knows about the status
+            stores = [(e[2]) for e in ev if e[0] == 'store' and e[1] == 'self.status']
+            ds = [k_ for k_ in val if k_.startswith('discr(self.status)')]
+            known = None
+            if ds:
+                latest = max(ds, key=lambda k_: int(k_.rsplit('#', 1)[1]) if '#' in k_ else 0)
+                known = 0 if val[latest] == 0 else 1        # discriminant 0 is Unsolved
+            ok_ = ret[0] == 'c' and known is not None and ret[1] == known
+            R.check(ok_, 'returns-ne-unsolved' + tag,
                     'check_termination returns %s, expected status != Unsolved' % (ret,), f.loc())
         R.check(nmi > 0 and nmt > 0, 'limit-leaves' + tag, 'no path stores MaxIterations/MaxTime (%d/%d)' % (nmi, nmt))
         # solve: a true result of check_termination reaches break or a scaling switch; save_scalars and
